@@ -224,9 +224,10 @@ def paths : List (String × List PathStep) := [
   -- Layer.insertGlyph / Font.insertGlyph / Glyph.copyDataFromGlyph with a glyph of another font
   ("insertGlyph", glyphShell ++ outline ++ glyphMarks),
   -- appendAnchor/appendGuideline/anchors=/guidelines= with dicts or foreign objects, at glyph and font level
-  ("dictAppend", [glyphStep "Glyph.instantiateAnchor", glyphStep "Glyph.insertAnchor?isinstance",
-                  glyphStep "Glyph.instantiateGuideline", glyphStep "Glyph.insertGuideline?isinstance",
-                  fontStep "Font.instantiateGuideline", fontStep "Font.insertGuideline?isinstance",
+  -- (the `isinstance(x, self._anchorClass)` guards that decide whether to convert are catalogued sites, covered
+  -- by `slot_flow_identity`; they are not steps of the path, so that dropping a guard is not an alarm)
+  ("dictAppend", [glyphStep "Glyph.instantiateAnchor", glyphStep "Glyph.instantiateGuideline",
+                  fontStep "Font.instantiateGuideline",
                   -- a font guideline dirties `font.info`, which is created (and read) on that first access
                   fontStep "Font.instantiateInfo"]),
   -- the public factory methods called directly
@@ -253,9 +254,9 @@ def paths : List (String × List PathStep) := [
 
 def pathSteps (name : String) : List PathStep := (AL.get? paths name).getD []
 
-/-- the sites that create (or guard) role `r` on path `name` -/
+/-- the sites that create role `r` on path `name` -/
 def stepsFor (name : String) (r : Role) : List PathStep :=
-  (pathSteps name).filter fun st => dispOf st.site = some (.handedOut r) || dispOf st.site = some (.guard r)
+  (pathSteps name).filter fun st => dispOf st.site = some (.handedOut r)
 
 /-! ## 3. The certificate -/
 
@@ -320,7 +321,7 @@ def pathsOk (w : Wiring) (objs : List AObj) : Bool :=
       !s.cls.isHard &&
       (match dispOf st.site with
         | some (.handedOut _) => true
-        | some (.guard _) => true
+        | some (.guard _) => false
         | some .scratch => s.cls == .sameClass
         | Option.none => false) &&
       (match areachFrom w (aroot w) chain with
@@ -328,12 +329,13 @@ def pathsOk (w : Wiring) (objs : List AObj) : Bool :=
         | Option.none => false)
     | _, _ => false
 
-/-- every handed-out or guard site of the wiring is on some path; every role has a site on some path -/
+/-- every site of the wiring that hands out a role is on some path; every role has a site on some path -/
 def pathsCover (w : Wiring) : Bool :=
   (w.sites.all fun s =>
     match dispOf s.id with
     | some .scratch => true
-    | some _ => paths.any fun p => p.2.any fun st => st.site == s.id
+    | some (.guard _) => true
+    | some (.handedOut _) => paths.any fun p => p.2.any fun st => st.site == s.id
     | Option.none => false) &&
   Role.all.all fun r => paths.any fun p => !(stepsFor p.1 r).isEmpty
 
